@@ -115,7 +115,8 @@ class Contract:
     def __init__(self, key, params=None, requires=(), ensures=(), raises=None, loops=None, modifies=None,
                  modular=False, which=None, props=(), note='', setup=None, result_shape=None, witnesses=(),
                  assume_result=None, ghost=None, exc_ensures=None, max_instances=None, instance_filter=None,
-                 pre_state=None, trusted=False, reveal=(), functional=None, inline=(), functional_outputs=1):
+                 pre_state=None, trusted=False, reveal=(), functional=None, inline=(), functional_outputs=1,
+                 prune=False):
         self.key = key
         self.params = params or {}
         self.requires = _clauses(requires, 'requires')
@@ -138,6 +139,7 @@ class Contract:
         self.reveal = tuple(reveal)
         self.functional = functional     # name of the uninterpreted function the (pure) result is an application of
         self.functional_outputs = functional_outputs
+        self.prune = prune
         self.inline = tuple(inline)      # callee keys whose bodies are executed here although they have modular contracts
 
     @property
